@@ -89,6 +89,9 @@ const (
 	WHERE
 	WITH
 	reserved_word_end
+
+	// ILLEGAL is a quoted literal or identifier that is not terminated
+	ILLEGAL
 )
 
 type TokenType int
@@ -108,6 +111,8 @@ var Tokens = map[TokenType]string{
 	FALSE: "FALSE",
 
 	IDENT: "an identifier",
+
+	ILLEGAL: "an unterminated literal",
 
 	BANG:   "!",
 	AND:    "AND",
@@ -300,7 +305,11 @@ func (ts *tokenScanner) Cur() Token {
 		tok.Type = IDENT
 		// strip quotes
 		tok.Text = ts.s.TokenText()
-		tok.Text = tok.Text[1 : len(tok.Text)-1]
+		if text, ok := unquote(tok.Text); ok {
+			tok.Text = text
+		} else {
+			tok.Type = ILLEGAL
+		}
 	default:
 		tok.Text = ts.s.TokenText()
 		if kw, isKw := keywords[strings.ToUpper(ts.s.TokenText())]; isKw {
@@ -321,11 +330,32 @@ func (ts *tokenScanner) Cur() Token {
 			tok.Type = STR
 			if ts.cur == String {
 				// strip quotes
-				tok.Text = tok.Text[1 : len(tok.Text)-1]
+				if text, ok := unquote(tok.Text); ok {
+					tok.Text = text
+				} else {
+					tok.Type = ILLEGAL
+				}
 			}
 		}
 	}
 	return tok
+}
+
+// unquote strips the quotes of a quoted token. ok is false if the token is not
+// terminated by its opening quote (end of input or end of line came first, or
+// the last quote is escaped by a backslash).
+func unquote(text string) (string, bool) {
+	if len(text) < 2 || text[len(text)-1] != text[0] {
+		return text, false
+	}
+	backslashes := 0
+	for i := len(text) - 2; i > 0 && text[i] == '\\'; i-- {
+		backslashes++
+	}
+	if backslashes%2 == 1 {
+		return text, false
+	}
+	return text[1 : len(text)-1], true
 }
 
 func (ts *tokenScanner) Next() bool {
